@@ -133,6 +133,22 @@ theorem reject_no_effect_facts :
     F.unknownOptionRejected = true := by
   decide
 
+/-- **a rejected definition leaves no table registered**, at whichever step it is rejected: by
+    the arguments, by the storage that cannot be opened, or by SQLite refusing the declaration -/
+theorem reject_no_effect (dec opens declOK : Bool) (h : (createEff F dec opens declOK).1 = false) :
+    (createEff F dec opens declOK).2 = false := by
+  have h1 : F.argsBeforeOpen = true := by decide
+  have h2 : F.registerAfterOpen = true := by decide
+  have h3 : F.declareFailureUnregisters = true := by decide
+  unfold createEff at *
+  cases dec <;> cases opens <;> cases declOK <;> simp_all
+
+/-- with the registration in front of the storage open (a seeded variant) a definition rejected
+    by the storage stays registered -/
+theorem register_before_open_leaks :
+    (createEff { F with registerAfterOpen := false } true false true) = (false, true) := by
+  decide
+
 /-- non-vacuity: the README's own example is accepted as specified -/
 example :
     create F (some [.col "id" true [.primaryKey], .col "name" true [], .col "email" true [.notNull]])
